@@ -798,11 +798,14 @@ Definition ops_six : list op :=
   ++ new_round (6 * ONE_DAY + 3) 60000 ++ new_round (8 * ONE_DAY + 4) 120000 ++ new_round (10 * ONE_DAY + 5) 150000
   ++ [OTime (12 * ONE_DAY + 6); OTally Resolved false true 2; OVotes [RD 6 None []]].
 
+(* with the code as found ([exec_block_gen _ false]: reporter's part = SlashAmount - BurnAmount) the begin blocker failed;
+   with the repair that is in /repo now (FeeTotal - BurnAmount, [step] uses it) the same history executes *)
 Lemma sixth_round_halts_refuted :
   exists c s ops,
     all_accepted repo_variant c s ops = true
     /\ s_id (run repo_variant c s ops) = 6 /\ s_burn (run repo_variant c s ops) = 382500
-    /\ snd (step repo_variant c (run repo_variant c s ops) OExecBlock) = EOther.
+    /\ snd (exec_block_gen true false (run repo_variant c s ops)) = EOther
+    /\ snd (step repo_variant c (run repo_variant c s ops) OExecBlock) = OK.
 Proof. exists cfg0, st0, ops_six. vm_compute. repeat split; reflexivity. Qed.
 
 (* ---- ... and cannot fail when fees are paid from accounts, in a single round ---------------------- *)
@@ -812,6 +815,14 @@ Ltac proj :=
 Ltac proj_in H :=
   cbn [fst snd set_money slash_reporter set_now s_now s_id s_slash s_burn s_feetotal s_reward s_status s_open s_pending
        s_result s_executed s_end s_round s_prev s_payers s_feetr s_slashtr s_rounds s_dust s_esc s_burned s_liq s_stk] in H.
+
+(* [exec_block] / [execute_vote] are the repaired instances of the generic functions *)
+Ltac unfold_eb :=
+  unfold exec_block, exec_block_gen;
+  repeat match goal with
+         | |- context [execute_vote_gen ?a repo_fix_F12 ?b] => change (execute_vote_gen a repo_fix_F12 b) with (execute_vote a b)
+         end.
+Ltac unfold_ev := unfold execute_vote, execute_vote_gen, repo_fix_F12.
 
 (* the reporter's whole slash amount reaches the escrow when the fee is complete (C11, after its repairs) *)
 Definition snapshot_full (c : cfg) (sl : option tracker) : Prop :=
@@ -865,7 +876,7 @@ Definition sinv (c : cfg) (s : st) : Prop :=
 (* ---- ExecuteVote ---- *)
 Lemma execute_vote_cases fx s : (exists s', execute_vote fx s = (s', OK)) \/ (exists e, execute_vote fx s = (s, e)).
 Proof.
-  unfold execute_vote. cbv zeta.
+  unfold_ev. cbv zeta.
   destruct ((s_status s =? Prevote) || (s_status s =? Failed)); [right; eexists; reflexivity|].
   destruct (negb _); [right; eexists; reflexivity|]. destruct (s_executed s); [right; eexists; reflexivity|].
   destruct (s_result s =? 0); [right; eexists; reflexivity|]. destruct (s_esc s <? _); [right; eexists; reflexivity|].
@@ -895,7 +906,7 @@ Proof.
   assert (Hhb : half_burn (s_burn s) = s_burn s / 2) by (apply half_burn_eq; lia).
   assert (Hhb0 : 0 <= s_burn s / 2 <= s_burn s).
   { split; [apply Z.div_pos; lia|]. apply Z.div_le_upper_bound; lia. }
-  unfold execute_vote. cbv zeta.
+  unfold_ev. cbv zeta.
   assert (E1 : (s_status s =? Prevote) || (s_status s =? Failed) = false).
   { destruct Hst as [H|[H|H]]; rewrite H; reflexivity. }
   rewrite E1.
@@ -917,7 +928,7 @@ Proof.
   destruct (is_support (s_result s)) eqn:Es; [eexists; reflexivity|].
   destruct (is_against (s_result s)) eqn:Ea.
   { destruct (return_slashed_succeeds (set_money s (s_esc s - bn) (s_burned s + bn) (s_liq s) (s_stk s))
-                (s_slash s + (s_slash s - s_burn s))) as [s2 E].
+                (s_slash s + (s_feetotal s - s_burn s))) as [s2 E].
     - lia. - proj. lia. - proj. exact Htr.
     - rewrite E. eexists. reflexivity. }
   exfalso. unfold is_invalid, is_support, is_against in *.
@@ -1032,7 +1043,7 @@ Proof.
   - left. proj. split; assumption.
   - unfold tally. rewrite Hid. exact Hph.
   - unfold set_votes. destruct (s_executed s); [exact Hph|]. left. proj. split; assumption.
-  - unfold exec_block. rewrite Hid. exact Hph.
+  - unfold_eb. rewrite Hid. exact Hph.
   - rewrite Hid. exact Hph.
   - unfold withdraw. rewrite Hid. exact Hph.
   - unfold claim. rewrite Hid. exact Hph.
@@ -1073,9 +1084,9 @@ Proof.
     + right. left. unfold prevote_inv. proj. repeat split; try assumption; lia.
     + right. right. right. left. unfold failed_inv. proj. repeat split; try assumption. apply Hop2. reflexivity.
   - unfold set_votes. rewrite Hex. right. left. unfold prevote_inv. proj. repeat split; try assumption; lia.
-  - unfold exec_block. rewrite Hpe, andb_false_r. exact Hph.
+  - unfold_eb. rewrite Hpe, andb_false_r. exact Hph.
   - destruct ((s_id s =? 0) || negb (id =? s_id s)); [exact Hph|].
-    unfold execute_vote. cbv zeta. rewrite Hst. exact Hph.
+    unfold_ev. cbv zeta. rewrite Hst. exact Hph.
   - rewrite withdraw_noop; [exact Hph | rewrite Hst; discriminate | exact Hex].
   - rewrite claim_noop; [exact Hph | exact Hex].
   - exact Hph.
@@ -1112,7 +1123,7 @@ Proof.
       try (match goal with H : pe' = true |- _ => apply Hop1 in H end);
       unfold Prevote, Voting, Resolved, Unresolved, Failed in *; lia.
   - unfold set_votes. rewrite Hex. right. right. left. unfold funded_inv. proj. repeat split; try assumption; apply Hp; assumption.
-  - unfold exec_block. rewrite Hfx. destruct (negb (s_id s =? 0) && s_pending s && _); [|exact Hph].
+  - unfold_eb. rewrite Hfx. destruct (negb (s_id s =? 0) && s_pending s && _); [|exact Hph].
     apply execute_vote_phase; assumption.
   - rewrite Hfx. destruct ((s_id s =? 0) || negb (id =? s_id s)); [exact Hph|]. apply execute_vote_phase; assumption.
   - rewrite withdraw_noop; [exact Hph | unfold Prevote, Voting, Resolved, Unresolved, Failed in *; lia | exact Hex].
@@ -1139,9 +1150,9 @@ Proof.
     { destruct pe'; [|reflexivity]. destruct (Hop1 eq_refl) as [_ H]. unfold Prevote, Voting, Resolved, Unresolved, Failed in *. lia. }
     subst. right. right. right. left. unfold failed_inv. proj. repeat split; assumption.
   - unfold set_votes. rewrite Hex. right. right. right. left. unfold failed_inv. proj. repeat split; assumption.
-  - unfold exec_block. rewrite Hpe, andb_false_r. exact Hph.
+  - unfold_eb. rewrite Hpe, andb_false_r. exact Hph.
   - destruct ((s_id s =? 0) || negb (id =? s_id s)); [exact Hph|].
-    unfold execute_vote. cbv zeta. rewrite Hst. exact Hph.
+    unfold_ev. cbv zeta. rewrite Hst. exact Hph.
   - pose proof (withdraw_core s who id) as C. unfold core in C. injection C as C1 C2 C3 C4 C5 C6 C7 C8.
     right. right. right. left. unfold failed_inv. rewrite C2, C5, C6, C7, C8, C1. repeat split; assumption.
   - rewrite claim_noop; [exact Hph | exact Hex].
@@ -1162,7 +1173,7 @@ Proof.
   - exact Hpe.
   - unfold tally. rewrite He, orb_true_r. exact Hpe.
   - unfold set_votes. rewrite He. exact Hpe.
-  - unfold exec_block. rewrite Hpe, andb_false_r. exact Hpe.
+  - unfold_eb. rewrite Hpe, andb_false_r. exact Hpe.
   - destruct ((s_id s =? 0) || negb (id =? s_id s)); [exact Hpe|]. rewrite settled_execute by exact Hs. exact Hpe.
   - pose proof (withdraw_core s who id) as C. unfold core in C. injection C as C1 C2 C3 C4 C5 C6 C7 C8. rewrite C6. exact Hpe.
   - pose proof (claim_core (fix35 v) s who id) as C. unfold core in C. injection C as C1 C2 C3 C4 C5 C6 C7 C8. rewrite C6. exact Hpe.
@@ -1183,7 +1194,7 @@ Qed.
 (* the begin blocker's execution step succeeds in every state of the invariant *)
 Theorem exec_block_never_fails v c s : fixc v = true -> sinv c s -> snd (step v c s OExecBlock) = OK.
 Proof.
-  intros Hfx [HS Hinv]. cbn [step]. unfold exec_block.
+  intros Hfx [HS Hinv]. cbn [step]. unfold_eb.
   destruct (negb (s_id s =? 0) && s_pending s && ((s_end s <? s_now s) || (s_status s =? Resolved))) eqn:G; [|reflexivity].
   apply andb_prop in G. destruct G as [G G3]. apply andb_prop in G. destruct G as [G1 G2].
   destruct Hinv as [[P0 _]|[P1|[P2|[PF|PX]]]].
